@@ -83,6 +83,18 @@ class C07(core.Property):
         "HappyModel.C07.Timers.old_disabled_tick_spins",
         "HappyModel.C07.Timers.warmupNew_never_past",
         "HappyModel.C07.Timers.warmupOld_past_iff",
+        "HappyModel.C07.tickMachine_strictFuture",
+        "HappyModel.C07.timers_no_stale_pop",
+        "HappyModel.C07.timers_deliveries_at_instant_bounded",
+        "HappyModel.C07.manualMachine_strictFuture",
+        "HappyModel.C07.manual_deliveries_at_instant_bounded",
+        "HappyModel.C07.rearmMachine_ranked",
+        "HappyModel.C07.rearm_no_stale_pop",
+        "HappyModel.C07.rearm_deliveries_at_instant_bounded",
+        "HappyModel.C07.FloatStamp.stampInt_never_past",
+        "HappyModel.C07.FloatStamp.stampFloat_zero_past_iff",
+        "HappyModel.C07.FloatStamp.stampFloat_past_iff",
+        "HappyModel.C07.FloatStamp.stampFloat_safe_of_delay",
     ]
     partial_theorems = {
         "HappyModel.C07.Rearm.chain_exact":
@@ -102,6 +114,8 @@ class C07(core.Property):
                   "StrictFuture (progress theorems only): every spec a handler returns has time > now",
                   "Ranked mc fan (ranked progress theorems): a handler emits at most `fan` events, each strictly later than now or at now "
                   "with a strictly smaller rank (Ev.data) than the event being handled",
+                  "FloatStamp.NoGain / LosesAtMostOne conv: the ns -> float seconds -> ns round trip never rounds up and loses at most "
+                  "one nanosecond (assumed of the library's IEEE-double conversions; conv is a parameter, floats do not enter)",
                   "Rearm.Sorted bs: the schedule's boundary instants int(b*1e9) are non-decreasing in schedule order",
                   "Rearm.LossyAt bs t (old-timer theorems only): some boundary stamped t reads back (ns/1e9) strictly before itself"]
     variants = ["current"]
